@@ -267,7 +267,7 @@ func runC03(c *Ctx, r *Run) {
 					for _, f := range cons {
 						for _, g := range getGuards(f) {
 							// the deciding call is the Verify method of the field's own type, fed by the field
-							if g.decider != n.Obj().Pkg().Name()+"."+n.Obj().Name()+".Verify" {
+							if !decIs(g.decider, n.Obj().Pkg().Name()+"."+n.Obj().Name()+".Verify") {
 								continue
 							}
 							if !containsField(g.fields, want) {
@@ -303,7 +303,7 @@ func runC03(c *Ctx, r *Run) {
 									continue
 								}
 								for _, g := range getGuards(f) {
-									if strings.HasSuffix(g.decider, ".Verify") && verifyReceiverIs(g.cond, stateFld, f) {
+									if decHasSuffix(g.decider, ".Verify") && verifyReceiverIs(g.cond, stateFld, f) {
 										found = true
 										pos = c.Pos(g.pos)
 										if guardCoversAccepts(g) {
@@ -324,7 +324,7 @@ func runC03(c *Ctx, r *Run) {
 							alt := false
 							for _, f := range cons {
 								for _, g := range getGuards(f) {
-									if strings.HasSuffix(g.decider, "IsIdentity") && containsField(g.fields, "body.Phi_i") {
+									if decHasSuffix(g.decider, "IsIdentity") && containsField(g.fields, "body.Phi_i") {
 										alt = true
 									}
 								}
@@ -346,7 +346,7 @@ func runC03(c *Ctx, r *Run) {
 								validated = true
 							}
 							// Decommit validates its commitment and decommitment arguments
-							if strings.HasSuffix(g.decider, "Hash.Decommit") && (n == hashCommitment || n == hashDecommitment) && containsField(g.fields, want) {
+							if decHasSuffix(g.decider, "Hash.Decommit") && (n == hashCommitment || n == hashDecommitment) && containsField(g.fields, want) {
 								validated = true
 							}
 						}
@@ -401,7 +401,7 @@ func runC03(c *Ctx, r *Run) {
 					continue
 				}
 				for _, g := range getGuards(f) {
-					if !strings.HasSuffix(g.decider, "Hash.Decommit") || !guardCoversAccepts(g) {
+					if !decHasSuffix(g.decider, "Hash.Decommit") || !guardCoversAccepts(g) {
 						continue
 					}
 					call := condCall(g.cond)
@@ -445,7 +445,7 @@ func runC03(c *Ctx, r *Run) {
 				// a passed Verify whose receiver/argument is res (or the value res was built from)
 				ok2 := false
 				for _, g := range rejectGuards(fn) {
-					if !strings.HasSuffix(g.decider, ".Verify") || g.iff == nil || g.passBlk == nil {
+					if !decHasSuffix(g.decider, ".Verify") || g.iff == nil || g.passBlk == nil {
 						continue
 					}
 					if !(g.passBlk == call.Block() || g.passBlk.Dominates(call.Block())) {
@@ -479,7 +479,7 @@ func runC03(c *Ctx, r *Run) {
 								}
 								verified, stored := false, false
 								for _, g := range rejectGuards(vmf) {
-									if strings.HasSuffix(g.decider, ".Verify") && guardCoversAccepts(g) {
+									if decHasSuffix(g.decider, ".Verify") && guardCoversAccepts(g) {
 										verified = true
 									}
 								}
